@@ -21,7 +21,7 @@ def pipe(mode):
         first = None
         for i in range(0, len(cases), B):
             obs = run_batch(ctx, verdict, cases[i:i + B], name)
-            first = first if first is not None else obs[:50]
+            first = first if first is not None else obs
         return first
     return run_cases
 
